@@ -457,7 +457,7 @@ pub fn run(tier: &str) -> i32 {
         ops,
         known: KnownFindings::load(),
     };
-    let depth = if tier == "quick" { 10 } else { 15 };
+    let depth = if tier == "quick" { 10 } else { 16 };
     let cfg = BfsConfig {
         max_depth: depth,
         wall_cap: crate::seq_checks::wall_cap(tier, 1),
